@@ -400,7 +400,11 @@ func c38CheckList(t *c38Tally, m map[string]bool, probes []netip.Addr) {
 			if c38MappedClass(m, ref, probes) {
 				sig = c38SigMapped
 			}
-			t.report(sig, c38Size(m)+len(p.String()), detail(map[string]any{"address": p.String(), "impl": got, "reference": want}))
+			size := c38Size(m) + len(p.String())
+			if got && !want {
+				size -= 40 // prefer a fail-open counterexample as the replay
+			}
+			t.report(sig, size, detail(map[string]any{"address": p.String(), "impl": got, "reference": want}))
 		}
 	}
 	if nontrivial {
@@ -415,9 +419,12 @@ func TestVerifC38(t *testing.T) {
 
 	prefixes := []string{"0.0.0.0/0", "10.0.0.0/8", "10.1.0.0/16", "10.1.1.1/32", "::/0", "fd00::/8", "fd00:1::/32",
 		"::ffff:10.0.0.0/104", "::ffff:10.1.1.1/128", "::ffff:0.0.0.0/96"}
-	maxSize := mc.Pick(c, 4, len(prefixes))
+	if c.Thorough() { // a fourth nesting level in both families
+		prefixes = append(prefixes, "10.1.1.0/24", "fd00:1:2::/48")
+	}
+	maxSize := len(prefixes) // every subset, every allow/deny assignment: 3^10 maps (thorough 3^12)
 	probes := []netip.Addr{A("10.1.1.1"), A("10.1.1.2"), A("10.1.2.3"), A("10.2.0.1"), A("8.8.8.8"), A("0.0.0.0"), A("255.255.255.255"), A("11.0.0.0"),
-		A("fd00::1"), A("fd00:1::1"), A("fd00:2::1"), A("fdff::1"), A("fe00::1"), A("2001:db8::1"), A("::1"), A("::")}
+		A("fd00::1"), A("fd00:1::1"), A("fd00:1:2::1"), A("fd00:2::1"), A("fdff::1"), A("fe00::1"), A("2001:db8::1"), A("::1"), A("::")}
 	c.Set("prefix_alphabet", prefixes)
 	c.Set("probe_addresses", len(probes))
 	c.Set("max_list_size", maxSize)
@@ -540,7 +547,7 @@ func c38Remote(c *mc.Check, t *c38Tally) {
 	globals := []map[string]bool{nil, {"10.0.0.0/8": false}, {"10.0.0.0/8": true}, {"0.0.0.0/0": true, "10.1.0.0/16": false, "::/0": false, "fd00::/8": true},
 		{"::ffff:10.0.0.0/104": false}}
 	inner := []map[string]bool{{"10.0.0.0/8": true}, {"10.0.0.0/8": false}, {"0.0.0.0/0": false, "10.1.0.0/16": true, "10.1.1.1/32": false}, {"fd00::/8": false},
-		{"::ffff:10.1.0.0/112": false}, {"10.1.0.0/16": true, "8.0.0.0/8": false}}
+		{"::ffff:10.1.0.0/112": false}, {"10.2.0.0/16": false, "8.0.0.0/8": false}}
 	ranges := []string{"10.128.0.0/16", "10.128.1.0/24", "fd80::/64", "::ffff:10.129.0.0/112"}
 	if !c.Thorough() {
 		inner = inner[:5]
@@ -768,7 +775,7 @@ func c38Remote(c *mc.Check, t *c38Tally) {
 	c.Set("remote_answers_with_range_list", usedInner)
 	c.Set("remote_answers_global_only", usedGlobalOnly)
 	c.Set("remote_answers_where_nested_range_readings_differ", mostSpecificDiffers)
-	c.Sample(map[string]any{"remote_allow_list": `{"10.0.0.0/8": true}`, "remote_allow_ranges": `{"10.128.0.0/16": {"10.1.0.0/16": true, "8.0.0.0/8": false}}`, "vpn": "10.128.0.5", "udp": "10.2.0.1", "reference": false})
+	c.Sample(map[string]any{"remote_allow_list": `{"10.0.0.0/8": true}`, "remote_allow_ranges": `{"10.128.0.0/16": {"10.2.0.0/16": false, "8.0.0.0/8": false}}`, "vpn": "10.128.0.5", "udp": "10.2.0.1", "reference": false})
 }
 
 func c38RuleOf(key string) c38Rule {
